@@ -29,16 +29,17 @@ def verifRecord(self, **kwa):
     LOG.append((fr.framer.name, fr.name, self._act.context))
 
 
-@doing.doify('VerifRaise', ioinits=dict(trig="trig", cnt="cnt"))
+CRASH = dict(count=0, at=0, kind=0)   # crash injection: the at-th call of any `verif raise` action raises
+
+
+@doing.doify('VerifRaise')
 def verifRaise(self, **kwa):
-    """crash injection: counts calls in share cnt, raises when cnt == trig (kind in trig.kind)"""
-    n = self.cnt.value + 1
-    self.cnt.value = n
-    if n == self.trig.value:
-        k = self.trig.data.kind
-        if k == 1:
+    """crash injection point: counts calls; raises at call number CRASH['at'] (may be a symbolic int)"""
+    CRASH["count"] += 1
+    if CRASH["count"] == CRASH["at"]:
+        if CRASH["kind"] == 1:
             raise ValueError("verif injected")
-        if k == 2:
+        if CRASH["kind"] == 2:
             raise KeyboardInterrupt()
 
 
